@@ -96,6 +96,11 @@ class Sim:
     def _deliver(self, me: Task) -> bool:
         if not self._interrupt_due(me):
             return False
+        if me.label.startswith("line:"):
+            # CPython runs signal handlers only where the eval loop checks for them (calls, function entry, backward jumps),
+            # never between the end of a `with` body and the call of __exit__; a line-level pre-emption point can be exactly
+            # there, so interrupts are delivered at call boundaries (the shims' yield points) only
+            return False
         it = self.interrupt
         it["delivered"] = True
         self.fault("interrupt_delivered")
